@@ -398,6 +398,53 @@ pub fn run(ctx: &Ctx) -> i32 {
         rep
     });
     let mut rep = rep;
+    // (e) values that compare equal but are not the same value (0.0 / -0.0, 1 / 1.0 / "1" / true,
+    // 2^53 as integer and as double): every ordered pair of them matched one after the other on one
+    // rule instance and one thread - the second verdict is the verdict of a fresh rule on a fresh
+    // thread. (A memo of "the last value" keyed by equality is blind to these pairs.)
+    {
+        let vals: Vec<DVal> = vec![
+            DVal::Float(0.0), DVal::Float(-0.0), DVal::UInt(0), DVal::Int(0), DVal::s("0"), DVal::s("-0"), DVal::UInt(1), DVal::Int(1), DVal::Float(1.0), DVal::Bool(true), DVal::s("1"), DVal::s("1.0"), DVal::Bool(false),
+            DVal::UInt(1 << 53), DVal::Float(9007199254740992.0), DVal::UInt((1 << 53) + 1), DVal::Float(1e15), DVal::UInt(1000000000000000), DVal::s("true"), DVal::Null, DVal::Float(f64::NAN),
+        ];
+        let pats: Vec<(&str, &str)> = vec![
+            ("str(f)", "'0'"), ("str(f)", "'-0'"), ("str(f)", "'-*'"), ("str(f)", "'*0'"), ("str(f)", "'1'"), ("str(f)", "'?^-'"), ("str(f)", "['1', 'true']"), ("str(f)", "'1*'"), ("str(f)", "'?e'"),
+            ("int(f)", "0"), ("int(f)", "1"), ("int(f)", "'>0'"), ("flt(f)", "0.0"), ("flt(f)", "'<0.5'"), ("flt(f)", "1.0"),
+            ("f", "0"), ("f", "1"), ("f", "0.0"), ("f", "'>=0'"), ("f", "true"), ("f", "'1'"), ("f", "9007199254740992"), ("f", "9007199254740993"), ("f", "'>9007199254740992'"), ("f", "'i*E*'"), ("not(f)", "0"), ("all(f)", "['*1*', '*0*']"), ("of(f, 1)", "[0, 1]"),
+        ];
+        let mut cells = 0u64;
+        for (key, pat) in &pats {
+            let text = format!("detection:\n  A:\n    {}: {}\n  condition: A\ntrue_positives: []\ntrue_negatives: []\n", key, pat);
+            let Some(rule) = eng::load_ok(&text) else {
+                rep.count("equal_value_rules_rejected");
+                continue;
+            };
+            let docs: Vec<DVal> = vals.iter().map(|v| DVal::Obj(vec![("f".into(), v.clone())])).collect();
+            for swv in [Sw(0), Sw(15)] {
+                let fresh: Vec<Option<bool>> = docs.iter().map(|d| fresh_thread_verdict(&text, d, swv)).collect();
+                let r = if swv.0 == 0 { rule.clone() } else { eng::optimise(&rule, swv).unwrap_or(rule.clone()) };
+                let maps: Vec<serde_yaml::Mapping> = docs.iter().map(to_yaml_map).collect();
+                for i in 0..docs.len() {
+                    for j in 0..docs.len() {
+                        cells += 1;
+                        rep.evaluations += 2;
+                        let _ = eng::matches(&r, &maps[i]);
+                        let v = eng::matches(&r, &maps[j]).ok();
+                        if v != fresh[j] {
+                            rep.violation(
+                                "history-dependent",
+                                "c12-history:equal-values",
+                                &format!("{}: {} -> the verdict on {} is {:?} right after matching {} but {:?} on a fresh rule in a fresh thread", key, pat, docs[j].to_json_text(), v, docs[i].to_json_text(), fresh[j]),
+                                json!({"rule": text, "doc": crate::mon::doc_text(&docs[j]), "doc_json": docs[j].to_json_text(), "order": [0, 1], "documents": [docs[i].to_json_text(), docs[j].to_json_text()], "switches": swv.0}),
+                            );
+                            break;
+                        }
+                    }
+                }
+            }
+        }
+        rep.add("equal_value_history_cells", cells);
+    }
     threads_part(ctx, &mut rep, ctx.size(40, 400));
     // (b) collect the children
     let mine = digest_lines(ctx.seed, ctx.size(1500, 20000));
@@ -427,7 +474,7 @@ pub fn run(ctx: &Ctx) -> i32 {
         ctx,
         rep,
         Meta {
-            rule: format!("merge-heavy generated rules (shared fields, sequences of mappings, matrix-forming): (a) {} optimise calls per rule for the full switch set and the shake+matrix sets (fewer for the others), all 15 sets: one printed form and one verdict vector; three reloads print the same; (b) two child processes recompute digests of printed optimised expressions and verdict vectors for a seeded rule list and must agree with this process line by line; (c) 16 threads share one &Rule (unoptimised, optimised, shaken), each matching the document multiset in its own order through recording documents that yield inside find(): every verdict must equal the single-threaded baseline (overlap of calls is measured with an in-flight counter and a logical clock); (d) every order (sampled in quick) of a 5-document sequence on one rule instance gives the verdicts a fresh rule in a fresh thread gives, and Display/Debug of the rule is unchanged. non-trivial = rule whose optimisation filled a merge map with >= 2 keys or built a matrix; distinct by printed expression", repeats),
+            rule: format!("merge-heavy generated rules (shared fields, sequences of mappings, matrix-forming): (a) {} optimise calls per rule for the full switch set and the shake+matrix sets (fewer for the others), all 15 sets: one printed form and one verdict vector; three reloads print the same; (b) two child processes recompute digests of printed optimised expressions and verdict vectors for a seeded rule list and must agree with this process line by line; (c) 16 threads share one &Rule (unoptimised, optimised, shaken), each matching the document multiset in its own order through recording documents that yield inside find(): every verdict must equal the single-threaded baseline (overlap of calls is measured with an in-flight counter and a logical clock); (d) every order (sampled in quick) of a 5-document sequence on one rule instance gives the verdicts a fresh rule in a fresh thread gives, and Display/Debug of the rule is unchanged; (e) every ordered pair of 21 values that compare equal without being the same (0.0 / -0.0, 1 / 1.0 / '1' / true, 2^53 as integer and double ...) matched back to back under 28 cast / plain / quantified predicates, second verdict vs a fresh rule in a fresh thread. non-trivial = rule whose optimisation filled a merge map with >= 2 keys or built a matrix; distinct by printed expression", repeats),
             exhaustive: false,
             assumptions: vec!["a sample of thread interleavings, widened by yields inside find(); sanitizer stages (TSan / Miri) are separate thorough steps".into()],
             min_nontrivial: 30,
